@@ -105,6 +105,22 @@ def step (t : List String) : Option String :=
       match memcpyOp K total d s srcSize with
       | none => pure "abort"
       | some _ => pure s!"ok {showA d} copied=1 {run1 d srcSize (sk == "app")}"
+  | ["grantg", mode, el, src, num] => do
+      -- a backend with can_grant_deny_access: when it grants (mode 1) its in-region pointer is handed on, when it refuses
+      -- (with the caller's pointer, mode 0, or with null, mode 2) rlbox falls back to allocate-and-copy: the result is
+      -- inside the sandbox in every case and holds the source bytes
+      let mode ← mode.toNat?
+      let (_, sk) ← addrOf src
+      let sz ← appSize el
+      let c ← (parseInt? num).map Int.toNat
+      if sk != "app" ∨ c = 0 ∨ c * sz > 0x4000 then none else
+      pure s!"ok inside copied={if mode = 1 then 0 else 1} bytes=same"
+  | ["denyg", mode, el, num] => do
+      let mode ← mode.toNat?
+      let sz ← appSize el
+      let c ← (parseInt? num).map Int.toNat
+      if c = 0 ∨ c * sz > 0x4000 then none else
+      pure s!"ok app copied={if mode = 1 then 0 else 1} bytes=same"
   | ["grantf", el, src, num, forced] => do
       let (s, sk) ← addrOf src
       let sz ← appSize el
